@@ -17,8 +17,10 @@ pub enum F {
     Accept,
     Neutral,
     Reject,
-    /// real ThresholdFilter at LEVEL_FILTERS[i]
+    /// real ThresholdFilter at LEVEL_FILTERS[i] (inside a harness wrapper that records the consultation)
     Threshold(u8),
+    /// the library's ThresholdFilter itself, unwrapped (its consultations are not observable, its verdicts are)
+    RealThreshold(u8),
 }
 
 #[derive(Serialize, Deserialize, Debug, Clone)]
@@ -40,6 +42,9 @@ pub struct Case {
     /// error (the caller caught it): errors of later records are still reported exactly once
     #[serde(default)]
     pub handler_panicked_before: bool,
+    /// every failing appender fails with the very same I/O error (a full disk hits them all): still one report each
+    #[serde(default)]
+    pub same_io_error: bool,
 }
 
 #[derive(Default, Debug)]
@@ -86,12 +91,15 @@ impl Filter for TF {
 struct FA {
     app: usize,
     fails: bool,
+    io: bool,
     logs: Arc<Mutex<Logs>>,
 }
 impl Append for FA {
     fn append(&self, r: &log::Record) -> anyhow::Result<()> {
         self.logs.lock().unwrap().deliveries.push(self.app);
-        if self.fails {
+        if self.fails && self.io {
+            Err(anyhow::Error::from(std::io::Error::from_raw_os_error(28)))
+        } else if self.fails {
             Err(anyhow::anyhow!("tag-{}-{}", self.app, r.args()))
         } else {
             Ok(())
@@ -103,7 +111,7 @@ impl Append for FA {
 fn response(f: &F, level: log::Level) -> F {
     match f {
         // the threshold filter rejects exactly the records more verbose than its level
-        F::Threshold(i) => {
+        F::Threshold(i) | F::RealThreshold(i) => {
             if level > LEVEL_FILTERS[*i as usize % 6] {
                 F::Reject
             } else {
@@ -127,6 +135,7 @@ pub fn check(case: &Case, obs: &mut Obs) -> CaseResult {
             .map(|(fi, f)| -> Box<dyn Filter> {
                 match f {
                     F::Threshold(i) => Box::new(TF { app: ai, idx: fi, inner: ThresholdFilter::new(LEVEL_FILTERS[*i as usize % 6]), logs: logs.clone() }),
+                    F::RealThreshold(i) => Box::new(ThresholdFilter::new(LEVEL_FILTERS[*i as usize % 6])),
                     other => Box::new(SF { app: ai, idx: fi, resp: other.clone(), logs: logs.clone() }),
                 }
             })
@@ -134,7 +143,7 @@ pub fn check(case: &Case, obs: &mut Obs) -> CaseResult {
         for (mut run, single) in crate::glue::runs_by_style(boxed, case.style.rotate_left(ai as u32 * 7)) {
             ab = if single { ab.filter(run.pop().unwrap()) } else { ab.filters(run) };
         }
-        b = b.appender(ab.build(format!("app{}", ai), Box::new(FA { app: ai, fails: a.fails, logs: logs.clone() })));
+        b = b.appender(ab.build(format!("app{}", ai), Box::new(FA { app: ai, fails: a.fails, io: case.same_io_error, logs: logs.clone() })));
     }
     for (run, single) in crate::glue::runs_by_style((0..case.apps.len()).map(|ai| format!("app{}", ai)).collect(), case.style.rotate_left(41)) {
         root = if single { root.appender(run[0].clone()) } else { root.appenders(run) };
@@ -142,7 +151,7 @@ pub fn check(case: &Case, obs: &mut Obs) -> CaseResult {
     if case.handler_panicked_before {
         let probe_logs = Arc::new(Mutex::new(Logs::default()));
         let cfg = Config::builder()
-            .appender(Appender::builder().build("failing", Box::new(FA { app: 0, fails: true, logs: probe_logs.clone() })))
+            .appender(Appender::builder().build("failing", Box::new(FA { app: 0, fails: true, io: false, logs: probe_logs.clone() })))
             .build(Root::builder().appender("failing").build(log::LevelFilter::Trace))
             .unwrap();
         let other = log4rs::Logger::new_with_err_handler(cfg, Box::new(|_e: &anyhow::Error| panic!("error handler panics")));
@@ -176,7 +185,9 @@ pub fn check(case: &Case, obs: &mut Obs) -> CaseResult {
             }
             let mut delivered = true;
             for (fi, f) in a.chain.iter().enumerate() {
-                exp_consults.push((ai, fi));
+                if !matches!(f, F::RealThreshold(_)) {
+                    exp_consults.push((ai, fi));
+                }
                 match response(f, level) {
                     F::Accept => break,
                     F::Reject => {
@@ -190,7 +201,7 @@ pub fn check(case: &Case, obs: &mut Obs) -> CaseResult {
             if delivered {
                 exp_deliveries.push(ai);
                 if a.fails {
-                    exp_errors.push(format!("tag-{}-{}", ai, ri));
+                    exp_errors.push(if case.same_io_error { std::io::Error::from_raw_os_error(28).to_string() } else { format!("tag-{}-{}", ai, ri) });
                 }
             }
         }
@@ -250,6 +261,7 @@ fn filter_strategy() -> impl Strategy<Value = F> {
         4 => Just(F::Neutral),
         2 => Just(F::Reject),
         2 => (0u8..6).prop_map(F::Threshold),
+        2 => (0u8..6).prop_map(F::RealThreshold),
     ]
 }
 
@@ -259,9 +271,9 @@ pub fn strategy() -> impl Strategy<Value = Case> {
         prop::collection::vec((prop::collection::vec(filter_strategy(), 0..=5), prop::bool::weighted(0.35)).prop_map(|(chain, fails)| App { chain, fails }), 1..=4),
         prop::collection::vec(0u8..5, 1..=5),
         any::<u64>(),
-        prop::bool::weighted(0.15),
+        (prop::bool::weighted(0.15), prop::bool::weighted(0.3)),
     )
-        .prop_map(|(root_level, apps, records, style, handler_panicked_before)| Case { root_level, apps, records, style, handler_panicked_before })
+        .prop_map(|(root_level, apps, records, style, (handler_panicked_before, same_io_error))| Case { root_level, apps, records, style, handler_panicked_before, same_io_error })
 }
 
 #[derive(Serialize, Deserialize, Debug, Clone)]
@@ -308,7 +320,7 @@ fn sweep(run: &Run) {
                     let studied = App { chain: chain.clone(), fails };
                     let companion = App { chain: vec![], fails: companion_fails };
                     let apps = if pos == 0 { vec![studied, companion] } else { vec![companion, studied] };
-                    ok &= run.eval_one("chains-exhaustive", &Case { root_level: 5, style: fnv64(format!("{:?}", apps).as_bytes()), apps, records: vec![2], handler_panicked_before: false }, &check);
+                    ok &= run.eval_one("chains-exhaustive", &Case { root_level: 5, style: fnv64(format!("{:?}", apps).as_bytes()), apps, records: vec![2], handler_panicked_before: false, same_io_error: false }, &check);
                 }
             }
         }
@@ -340,7 +352,7 @@ pub fn replay(part: &str, case: serde_json::Value) -> Option<CaseResult> {
 pub fn meta() -> EvidenceMeta {
     EvidenceMeta {
         level: "exploration",
-        rule: "cases = 1-4 appenders on the root, each with a chain of 0-5 filters (scripted Accept/Neutral/Reject that log their consultation, real ThresholdFilters at generated levels wrapped to observe the consultation) and a scripted outcome (Ok / Err(tag)), root level generated, 1-5 records at generated levels; plus exhaustive sweeps (121 chains <= 4 x failing/healthy x position x companion; threshold truth table). Oracle per appender independently: filters consulted = chain prefix up to and including the first non-Neutral answer, delivered iff that answer is Accept or none exists, another appender's rejection/error never changes this, error handler receives exactly the tags of failing delivered appenders once each; no consultation for records the logger does not admit. Filters and appender references are attached through a mix of singular and bulk builder calls; in 15% of the cases the error handler of another logger panicked earlier on the thread (caught). non-trivial = >=2 appenders with different verdicts, or a failing appender before a healthy one, or an Accept before a Reject in one chain".into(),
+        rule: "cases = 1-4 appenders on the root, each with a chain of 0-5 filters (scripted Accept/Neutral/Reject that log their consultation, real ThresholdFilters at generated levels wrapped to observe the consultation) and a scripted outcome (Ok / Err(tag)), root level generated, 1-5 records at generated levels; plus exhaustive sweeps (121 chains <= 4 x failing/healthy x position x companion; threshold truth table). Oracle per appender independently: filters consulted = chain prefix up to and including the first non-Neutral answer, delivered iff that answer is Accept or none exists, another appender's rejection/error never changes this, error handler receives exactly the tags of failing delivered appenders once each; no consultation for records the logger does not admit. Chains may hold the library's ThresholdFilter unwrapped; in 30% of the cases every failing appender fails with the very same std::io::Error. Filters and appender references are attached through a mix of singular and bulk builder calls; in 15% of the cases the error handler of another logger panicked earlier on the thread (caught). non-trivial = >=2 appenders with different verdicts, or a failing appender before a healthy one, or an Accept before a Reject in one chain".into(),
         assumptions: vec!["filters and appenders are harness implementations (plus the real ThresholdFilter)".into()],
         mutants_caught: vec![],
     }
